@@ -116,7 +116,10 @@ func (ff *FuncFacts) NC(b *ssa.BasicBlock) []Fact {
 	for i := 0; i < len(out); i++ {
 		f := out[i]
 		var edges [][2]*ssa.BasicBlock
+		var tested *ssa.Phi
+		lastWebDeep = false
 		if phi, ok := f.Cond.(*ssa.Phi); ok {
+			tested = phi
 			edges, ok = flagEdges(phi, f.Pol, map[*ssa.Phi]bool{})
 			if !ok || len(edges) == 0 {
 				continue
@@ -129,12 +132,20 @@ func (ff *FuncFacts) NC(b *ssa.BasicBlock) []Fact {
 			if !isPhi {
 				continue
 			}
+			tested = phi
 			edges, ok = ff.nilEdges(phi, isNil, map[*ssa.Phi]bool{})
 			if !ok || len(edges) == 0 {
 				continue
 			}
 		} else {
 			continue
+		}
+		// the derived facts describe current values (not just an earlier event) when they come
+		// from the direct incoming edges of a phi whose block dominates b: the last evaluation of
+		// that phi precedes b and nothing the facts mention is evaluated again in between
+		valueOK := !lastWebDeep && tested != nil && (tested.Block() == b || tested.Block().Dominates(b))
+		if ok0, isDer := ff.derived[b][f]; isDer && !ok0 {
+			valueOK = false // learnt from an event fact: an event fact itself
 		}
 		var inter []Fact
 		for k, e := range edges {
@@ -167,7 +178,7 @@ func (ff *FuncFacts) NC(b *ssa.BasicBlock) []Fact {
 				if ff.derived[b] == nil {
 					ff.derived[b] = map[Fact]bool{}
 				}
-				ff.derived[b][x] = true
+				ff.derived[b][x] = valueOK
 			}
 		}
 	}
@@ -190,7 +201,8 @@ func (ff *FuncFacts) NCv(b *ssa.BasicBlock) []Fact {
 	}
 	var out []Fact
 	for _, f := range all {
-		if !d[f] || stableValue(f.Cond, 0) {
+		valueOK, isDerived := d[f]
+		if !isDerived || valueOK || stableValue(f.Cond, 0) {
 			out = append(out, f)
 		}
 	}
@@ -222,6 +234,10 @@ func stableValue(v ssa.Value, depth int) bool {
 	return true
 }
 
+// lastWebDeep: the last flagEdges/nilEdges evaluation followed a nested phi
+// (its edges may belong to earlier loop iterations).
+var lastWebDeep bool
+
 // flagEdges returns the CFG edges (pred, phiBlock) that feed the constant
 // `want` into the flag web of phi; ok=false if the web has a non-constant
 // operand (then nothing can be concluded).
@@ -242,6 +258,7 @@ func flagEdges(phi *ssa.Phi, want bool, seen map[*ssa.Phi]bool) ([][2]*ssa.Basic
 				out = append(out, [2]*ssa.BasicBlock{pred, phi.Block()})
 			}
 		case *ssa.Phi:
+			lastWebDeep = true
 			sub, ok := flagEdges(v, want, seen)
 			if !ok {
 				return nil, false
@@ -274,6 +291,7 @@ func (ff *FuncFacts) nilEdges(phi *ssa.Phi, wantNil bool, seen map[*ssa.Phi]bool
 				}
 				continue
 			}
+			lastWebDeep = true
 			es, ok := ff.nilEdges(sub, wantNil, seen)
 			if !ok {
 				return nil, false
